@@ -48,6 +48,8 @@ def lattice_cfgs():
   add([3], monotonicities=[1])
   add([2, 2], monotonicities=[1, 1])
   add([2, 2], monotonicities=[1, 0], output_min=-0.5)
+  add([2, 2], monotonicities=[1, 0], output_min=0.0)
+  add([2, 2], monotonicities=[0, 1], output_max=0.0)
   add([2, 2], monotonicities=[0, 0], output_max=0.5)
   add([2, 2], monotonicities=[1, 0], edgeworth_trusts=[(0, 1, 1)])
   add([2, 2], monotonicities=[1, 0], edgeworth_trusts=[(0, 1, -1)])
